@@ -60,7 +60,7 @@ func projSource(r *rand.Rand) string {
 	case 10:
 		return w() + "\n##!=>\n" + w() + "\n" + w() + "\n##!=< st1\n##!=> st1\n##!=> st1\n"
 	default:
-		return "##! comment\n\n" + list(2 + r.Intn(6))
+		return "##! comment\n\n" + list(2+r.Intn(6))
 	}
 }
 
@@ -135,30 +135,33 @@ func projGen1(r *rand.Rand) *project {
 // addDecoys adds files that no command may touch.
 func (p *project) addDecoys(r *rand.Rand) {
 	d := map[string]string{
-		"regex-assembly/932100.ra.bak":            "  not an assembly file\n",
-		"regex-assembly/932100.txt":               "  not an assembly file\n",
-		"regex-assembly/notes.ra.txt":             "  notes\n",
-		"regex-assembly/README":                   "  readme\n",
-		"regex-assembly/include/README.md":        "  readme\n",
-		"rules/README.md":                         "SecRule ARGS \"@rx keep\" \\\n    \"id:932100,\\\n",
-		"rules/restricted-files.data":             "# OWASP CRS ver.1.0.0\n.htaccess\n",
-		"rules/REQUEST-999.conf.orig":             "# OWASP CRS ver.1.0.0\n    ver:'OWASP_CRS/1.0.0',\\\n",
-		"rules/old.conf~":                         "# OWASP CRS ver.1.0.0\n",
-		"tests/regression/tests/README.md":        "test_id: 5\n",
+		"regex-assembly/932100.ra.bak":                              "  not an assembly file\n",
+		"regex-assembly/932100.txt":                                 "  not an assembly file\n",
+		"regex-assembly/notes.ra.txt":                               "  notes\n",
+		"regex-assembly/README":                                     "  readme\n",
+		"regex-assembly/include/README.md":                          "  readme\n",
+		"rules/README.md":                                           "SecRule ARGS \"@rx keep\" \\\n    \"id:932100,\\\n",
+		"rules/restricted-files.data":                               "# OWASP CRS ver.1.0.0\n.htaccess\n",
+		"rules/REQUEST-999.conf.orig":                               "# OWASP CRS ver.1.0.0\n    ver:'OWASP_CRS/1.0.0',\\\n",
+		"rules/old.conf~":                                           "# OWASP CRS ver.1.0.0\n",
+		"tests/regression/tests/README.md":                          "test_id: 5\n",
 		"tests/regression/tests/REQUEST-932-TESTS/932100.yaml.orig": "  - test_id: 9\n\n\n",
 		"tests/regression/tests/REQUEST-932-TESTS/9321000.yaml":     "  - test_id: 9\n\n\n",
 		"tests/regression/tests/REQUEST-932-TESTS/notes.yaml":       "  - test_id: 9\n\n\n",
 		"tests/regression/tests/REQUEST-932-TESTS/920110":           "  - test_id: 9\n\n\n",
-		"tests/regression/README.yaml":            "  - test_id: 9\n\n\n",
-		"tests/932100.yaml":                       "  - test_id: 9\n\n\n",
-		"docs/notes.example.txt":                  "# OWASP CRS ver.1.0.0\n",
-		"docs/example":                            "# OWASP CRS ver.1.0.0\n",
-		"util/script.sh":                          "#!/bin/sh\n# OWASP CRS ver.1.0.0\n",
-		"../sibling/rules/REQUEST-932-OUTSIDE.conf": "# OWASP CRS ver.1.0.0\nSecRule ARGS \"@rx outside\" \\\n    \"id:932100,\\\n    ver:'OWASP_CRS/1.0.0'\"\n",
-		"../sibling/regex-assembly/932100.ra":       "   outside\n",
-		"../sibling/tests/regression/tests/X/932100.yaml": "  - test_id: 9\n\n\n",
-		"../outside.conf":                           "# OWASP CRS ver.1.0.0\n",
-		"../outside.ra":                             "   outside\n",
+		"tests/regression/README.yaml":                              "  - test_id: 9\n\n\n",
+		"tests/regression/tests/REQUEST-932-TESTS/932777.yaml.orig": "  - test_id: 9\n  - test_id: 4\n\n\n",
+		"tests/regression/tests/REQUEST-932-TESTS/932778.txt":       "  - test_id: 9\n  - test_id: 4\n",
+		"tests/regression/tests/REQUEST-932-TESTS/README.md":        "  - test_id: 9\n  - test_title: x-7\n",
+		"tests/932100.yaml":                                         "  - test_id: 9\n\n\n",
+		"docs/notes.example.txt":                                    "# OWASP CRS ver.1.0.0\n",
+		"docs/example":                                              "# OWASP CRS ver.1.0.0\n",
+		"util/script.sh":                                            "#!/bin/sh\n# OWASP CRS ver.1.0.0\n",
+		"../sibling/rules/REQUEST-932-OUTSIDE.conf":                 "# OWASP CRS ver.1.0.0\nSecRule ARGS \"@rx outside\" \\\n    \"id:932100,\\\n    ver:'OWASP_CRS/1.0.0'\"\n",
+		"../sibling/regex-assembly/932100.ra":                       "   outside\n",
+		"../sibling/tests/regression/tests/X/932100.yaml":           "  - test_id: 9\n\n\n",
+		"../outside.conf":                                           "# OWASP CRS ver.1.0.0\n",
+		"../outside.ra":                                             "   outside\n",
 	}
 	for k, v := range d {
 		p.Extra[k] = v
